@@ -1263,6 +1263,8 @@ func (fr *Frame) step(st *State, in ssa.Instruction) bool {
 		fr.safetyOb(st, in, "nil", f.Neq(base, f.Int(0)))
 		if dt, s, ok := ex.tm.StructOf(pt); ok {
 			fr.env[x] = ex.faddr(base, dt, fieldName(s, x.Field))
+			// &p.f is never nil (p == nil panics before)
+			ex.assume(st, f.Gt(fr.env[x], f.Int(0)))
 		} else {
 			// field of an opaque (non-lava) struct
 			s := types.Unalias(pt).Underlying().(*types.Struct)
@@ -1473,6 +1475,10 @@ func (fr *Frame) unop(st *State, x *ssa.UnOp) *Term {
 		v := ex.load(st, p, x.Type())
 		ex.assume(st, ex.tm.WellTyped(v, x.Type(), 1))
 		ex.assume(st, ex.loadedRefFacts(v, x.Type(), 1))
+		if g, ok := x.X.(*ssa.Global); ok && ex.W.nonNilGlobal(g) {
+			ex.trustedUsed["package-level error variable set once by an error constructor in init is non-nil: "+g.String()] = true
+			ex.assume(st, f.Gt(v, f.Int(0)))
+		}
 		return v
 	case token.NOT:
 		return f.Not(fr.val(x.X))
@@ -1557,11 +1563,13 @@ func (fr *Frame) indexAddr(st *State, x *ssa.IndexAddr) {
 		es := ex.tm.SortOf(t.Elem())
 		fr.safetyOb(st, x, "index", f.And(f.Ge(idx, f.Int(0)), f.Lt(idx, f.Acc("Slice", "len", base))))
 		fr.env[x] = ex.iaddr(es, f.Acc("Slice", "ref", base), f.Add(f.Acc("Slice", "off", base), idx))
+		ex.assume(st, f.Gt(fr.env[x], f.Int(0)))
 	case *types.Pointer:
 		at := types.Unalias(t.Elem()).Underlying().(*types.Array)
 		es := ex.tm.SortOf(at.Elem())
 		fr.safetyOb(st, x, "index", f.And(f.Ge(idx, f.Int(0)), f.Lt(idx, f.Int(at.Len()))))
 		fr.env[x] = ex.iaddr(es, base, idx)
+		ex.assume(st, f.Gt(fr.env[x], f.Int(0)))
 	default:
 		fr.env[x] = ex.freshOf(st, "indexaddr", x.Type())
 	}
